@@ -1,6 +1,7 @@
 package main
 
 import (
+	"crypto/sha256"
 	"fmt"
 	"go/constant"
 	"go/token"
@@ -97,6 +98,7 @@ type Exec struct {
 	builtinStubs   map[string]string
 	hashSeq        int
 	hashMemo       map[string]string
+	encMemo        map[string]Value
 }
 
 func (e *Exec) callerIsInit() bool {
@@ -141,6 +143,7 @@ func (e *Exec) runPath(fn *ssa.Function, prefix []bool) {
 	e.symDecisions = 0
 	e.hashSeq = 0
 	e.hashMemo = map[string]string{}
+	e.encMemo = map[string]Value{}
 	e.nondet = 0
 	e.sol.Push()
 	defer e.sol.Pop()
@@ -1752,6 +1755,37 @@ func (e *Exec) concatBytes(in []Term) (Term, int) {
 }
 
 func (e *Exec) hashTerm(name string, in []Term, n int) []Value {
+	allConst := !intMode
+	for _, t := range in {
+		if !t.Const {
+			allConst = false
+		}
+	}
+	if allConst {
+		// concrete input: a concrete (pseudo) digest, tied to the uninterpreted function so
+		// that symbolic applications stay consistent with it
+		h := sha256.New()
+		h.Write([]byte(name))
+		for _, t := range in {
+			h.Write([]byte{byte(t.U.Uint64())})
+		}
+		sum := h.Sum(nil)
+		for len(sum) < n {
+			sum = append(sum, sum...)
+		}
+		out := make([]Value, n)
+		val := new(big.Int).SetBytes(sum[:n])
+		for i := 0; i < n; i++ {
+			out[i] = VInt{BVu(8, uint64(sum[i]))}
+		}
+		if len(in) > 0 {
+			arg, w := e.concatBytes(in)
+			f := fmt.Sprintf("hash_%s_%d", name, len(in))
+			e.sol.DeclareFun(f, fmt.Sprintf("((_ BitVec %d)) (_ BitVec %d)", w, 8*n))
+			e.sol.Assert(Eq(app(8*n, f, arg), BV(8*n, val)))
+		}
+		return out
+	}
 	key := name
 	for _, t := range in {
 		key += " " + t.S
